@@ -64,5 +64,5 @@ MenuC16(s) ==
         \cup {D("mod", v, u, n) : u \in {1}, n \in {"Sensitive", "Name"}}
         : v \in AllVers}
 
-CheckedC16 == {"C16_op", "C16_attrs", "C16_create", "C16_query", "C16_avail", "C13_item", "C08_failclean"}
+CheckedC16 == {"C16_op", "C16_attrs", "C16_create", "C16_locate", "C16_query", "C16_avail", "C13_item", "C08_failclean"}
 =============================================================================
